@@ -18,6 +18,17 @@ API
             if w:   ctx.violation('leaf:' + w[0]['leaf'], msg, w[0])
             else:   ctx.broken_obligation('Properties_C01c.vo', {'message': msg, **c01c_util.LAST})
 
+    regen_ident_leaves(ctx)  (C17: flatcc_identifier.h + header acceptors -> Generated/Leaf_ident.v, Properties_C17c) and
+    regen_refmap_leaves(ctx) (C18: refmap hash + load-factor test -> Generated/Leaf_refmap.v, Properties_C18c) have the same contract:
+
+        ok, msg = c01c_util.regen_ident_leaves(ctx)            # in checks/c17.py; regen_refmap_leaves in checks/c18.py
+        if not ok:
+            w = c01c_util.LAST.get('witnesses') or []
+            if w:   ctx.violation('leaf:' + w[0]['leaf'], msg, w[0])
+            else:   ctx.broken_obligation('Properties_C17c.vo', dict(c01c_util.LAST, message=msg))
+
+    Witnesses are reported only when the compiled C confirms them (see _confirm); otherwise the message ends with
+    no-failing-input-found and LAST['unconfirmed'] holds the candidates.
     regen_builder_leaves(ctx) is the same for the second family (src/runtime/builder.c pad/alignup helpers ->
     coq/Generated/Leaf_builder.v, Properties_C12c) when those files exist.
 Result codes in a witness: 0 ok, n > 0 flatcc_verify_error n, -1 a read outside the buffer (None / VOob).
@@ -53,6 +64,7 @@ BUILDER_SEARCH_ARGS = {
 IDENT_SEARCH_ARGS = {       # results: 1000000 + n = header accepted with buffer size n, n = flatcc_verify_error n, -1 = read outside
     'flatbuffers_type_hash_from_string': [],          # the string bytes are the witness buffer
     'flatbuffers_type_hash_from_identifier': [],
+    'flatbuffers_type_hash_from_name': [],            # -2 = the loop ran out of fuel (length + 1 iterations)
     'flatbuffers_identifier_from_type_hash': ['type_hash'],
     'flatcc_verify_buffer_header': ['buf_addr', '*fid(-1 = NULL | 0, string bytes...)'],
     'flatcc_verify_buffer_header_with_size': ['buf_addr', '*fid(-1 = NULL | 0, string bytes...)'],
@@ -90,7 +102,7 @@ def _search_one(ctx, conv_mod, area, leaf, names):
         names = names[:-1] + ['_'] * (len(args) - len(names) + 1)
     else:
         ad = dict(zip(names, args))
-    w = {'leaf': leaf, 'args': ad, 'buffer_hex': bytes(b & 255 for b in bts).hex() or '-',
+    w = {'leaf': leaf, 'args': ad, 'arg_list': args, 'buffer_hex': bytes(b & 255 for b in bts).hex() or '-',
          'c_result': c, 'model_result': mo}
     if len(args) > len(names):        # get_offset_field: the disagreement is on *out, not on the verdict
         w['note'] = 'verdicts agree (ok); *out (c_result) differs from the model base (model_result)'
@@ -103,6 +115,38 @@ def _search(ctx, conv_mod, area, table):
     wit = [r for r in res if r and 'error' not in r]
     errs = [r for r in res if r and 'error' in r]
     return wit, errs
+
+
+WIT_EXTRA_SRCS = {'builder': ['src/runtime/emitter.c', 'src/runtime/refmap.c']}
+
+
+def _confirm(ctx, family, wits):
+    """Run the REAL C leaf (translators/leaf_wit_<family>.c over lib.REPO's current source, ASan) on every witness of the
+    Coq search and keep only those on which it returns what the translation predicted (a read past the input -> -1).
+    A witness the compiled code does not confirm says that translation or conventions are off, not the source: it is
+    dropped (LAST['unconfirmed']) and the caller reports no-failing-input-found.  -> (confirmed, unconfirmed)"""
+    if not wits: return [], []
+    tdir = os.path.join(lib.ROOT, 'translators')
+    exe = os.path.join(ctx.bdir, 'leaf_wit_%s' % family)
+    srcs = [os.path.join(tdir, 'leaf_wit_%s.c' % family)] + [os.path.join(lib.REPO, x) for x in WIT_EXTRA_SRCS.get(family, [])]
+    cmd = ['clang', '-std=gnu11', '-g', '-w', '-fsanitize=address', '-DNDEBUG', '-I%s/include' % lib.REPO, '-I' + tdir,
+           '-DLEAF_SRC="%s"' % os.path.join(lib.REPO, cleaf_to_coq.FAMILIES[family]['src'])] + srcs + ['-o', exe]
+    rc, out = lib.sh(cmd, timeout=300)
+    good, bad = [], []
+    for w in wits:
+        if rc != 0:
+            bad.append(dict(w, confirm='harness does not build: ' + out[-300:])); continue
+        r, so, se = lib.sh2([exe, w['leaf'], w['buffer_hex']] + [str(a) for a in w['arg_list']], timeout=60,
+                            env={'ASAN_OPTIONS': 'detect_leaks=0'})
+        if 'ERROR: AddressSanitizer: heap-buffer-overflow' in se: real = -1       # a read past the input
+        else:
+            try: real = int(so.strip().split()[-1])
+            except (ValueError, IndexError): real = None
+        if real is not None and real == w['c_result']:
+            good.append(dict(w, confirmed_by_compiled_c=True))
+        else:
+            bad.append(dict(w, confirm='compiled C gives %s, translation predicted %s' % (real, w['c_result'])))
+    return good, bad
 
 
 def _fmt(w, model_mod):
@@ -130,10 +174,13 @@ def _regen(ctx, family, gen_rel, prop_module, conv_mod, area, table, model_mod):
     # when they still compile.  Make sure (cheap when up to date), then search.
     ctx.coq_make(['%s/%s.vo' % (area, conv_mod)], timeout=600)
     wit, errs = _search(ctx, conv_mod, area, table)
-    LAST['witnesses'], LAST['search_errors'] = wit, errs
+    wit, unconf = _confirm(ctx, family, wit)
+    LAST['witnesses'], LAST['search_errors'], LAST['unconfirmed'] = wit, errs, unconf
     if wit:
         return False, '; '.join(_fmt(w, model_mod) for w in wit)
     why = 'search could not run: ' + errs[0]['error'][-300:].replace('\n', ' ') if errs else 'boundary grid shows no difference'
+    if unconf: why = 'the search found %d candidate(s) that the compiled C does not confirm (%s: %s) - translation or conventions suspect' % (
+        len(unconf), unconf[0]['leaf'], unconf[0]['confirm'])
     return False, 'T5 %s: %s.vo no longer checks over the regenerated %s (%s; %s) no-failing-input-found' % (
         family, prop_module, gen_rel, ','.join(LAST['broken'].get('files', [])[:3]), why)
 
